@@ -380,6 +380,9 @@ def distances(ctx):
             "sqeuclidean_distance_2d": ["XA.shape[1] == 2"],
             "euclidean_distance_3d": ["not XA.shape[1] == 2", "XA.shape[1] == 3", "metric == 'euclidean'"],
             "sqeuclidean_distance_3d": ["not XA.shape[1] == 2", "XA.shape[1] == 3"]}
+    if set(table) != set(want):
+        raise AnalysisError(f"cdist no longer dispatches to the four kernels through an if-chain of direct calls (found {sorted(table)}): "
+                            "the dispatch cannot be read off the code shape")
     ok = set(table) == set(want) and all("euclidean'" in " ".join(table[k]) for k in table if not k.startswith("sq")) \
         and all(("== 2" in " ".join(v)) != ("== 3" in " ".join(v)) or "not XA.shape[1] == 2" in v for v in table.values()) \
         and all(("3d" in k) == any("== 3" in x and not x.startswith("not") for x in v) for k, v in table.items())
